@@ -36,6 +36,16 @@ func vfH_Burst() {
 			}
 		}
 	}
+	if metrics {
+		// the striped metric counters are indexed by hash%25 (symbolic hashes would fork 25 ways per
+		// counter update): metrics scenarios use concrete key hashes in shards 0/1 with different
+		// stripes; the cell layout is checked for an arbitrary hash by vfH_C17_Cells
+		fixed := [3]uint64{6400, 6400*2 + 1, 6400*3 + 4352}
+		for i := 0; i < nk; i++ {
+			mon.hash[i] = fixed[i]
+			mon.conf[i] = uint64(i + 1)
+		}
+	}
 	if vfParam("sketch", 0) == 1 {
 		vfHavocReach(c.cachePolicy.admit.freq, "freq")
 	}
